@@ -419,7 +419,7 @@ Proof.
   destruct (r_active (w_r w)); [|discriminate].
   apply bind_ok in H. destruct H as (pe & Hreg & H).
   destruct (p_state (pe_p pe) =? ST_PartialActive) eqn:Es; [|discriminate].
-  destruct (0 <? amt); [|discriminate]. destruct (is_locked_tok ltok); [|discriminate].
+  destruct (is_locked_tok ltok); [|discriminate].
   destruct (pe_lp pe) eqn:Elp; [|discriminate]. destruct (orig =? addr) eqn:Eo; [|discriminate].
   destruct (view_tokens_for_position (pe_p pe) amt) as [v1 v2].
   apply bind_ok in H. destruct H as ([common value] & _ & H).
